@@ -50,24 +50,33 @@ Example C07_old_witness_blocks :
             /\ returned s 1 = false /\ nth_error (ws s) 1 = Some WWait /\ fch s = [0; 1].
 Proof. eexists. split; [vm_compute; reflexivity|]. vm_compute. auto. Qed.
 
-(** Outside the property's quantifier (no background writer for some request): when a writer reads
-    haveWALWriter = false, FlushToWAL runs in the writer's goroutine, and two such calls interleave:
-    W0 drains both commands, W1 finds the channel empty and returns while W0 has not written the WAL
-    yet.  Reachable with BackgroundSync=false and concurrent writers, or in the window where the loop's
-    shutdown branch has cleared the flag.  Recorded as a remark (notes/C07.md), not as a finding of C07. *)
+(** Outside the property's quantifier (a request that finds no background writer): when a writer reads
+    haveWALWriter = false, FlushToWAL runs in the writer's goroutine.  Since /repo 39160a5 such flushes take
+    turns among writers (wf.syncFlushMu; C07_inline_serialised below: the interleaving of two inline flushes that
+    used to lose a write is no longer a schedule), but the loop goroutine's flushes do not take that mutex: in the
+    window where the shutdown branch has cleared the flag and is draining, a writer's inline flush finds the
+    channel empty and returns while the loop has not written the WAL yet.  Recorded as a remark
+    (notes/C07.md), not as a finding of C07: the property presupposes the background writer. *)
 Definition C07_inline_witness : list label :=
-  [Enq 0; Enq 1; RdHave 0 false; RdHave 1 false; InlFl 0; InlFl 0; InlFl 0; InlFl 1].
+  [LStart; Enq 0; EnvShut; LShut; LFl; LFl; RdHave 0 false; InlFl 0].
 
 Theorem C07_steady_needed : ~ (forall ks0 cw cf ls s w,
   run_labels (init ks0 cw cf) ls = Some s ->
   returned s w = true -> flushed s w = true).
 Proof.
   intros H.
-  destruct (run_labels (init [1; 1] 1000000%N 1000000%N) C07_inline_witness) as [s|] eqn:E; [|vm_compute in E; discriminate].
-  specialize (H [1; 1] 1000000%N 1000000%N C07_inline_witness s 1 E).
+  destruct (run_labels (init [1] 1000000%N 1000000%N) C07_inline_witness) as [s|] eqn:E; [|vm_compute in E; discriminate].
+  specialize (H [1] 1000000%N 1000000%N C07_inline_witness s 0 E).
   vm_compute in E. inversion E; subst; clear E. vm_compute in H. specialize (H eq_refl). discriminate H.
 Qed.
 Print Assumptions C07_steady_needed.
+
+Example C07_inline_serialised :
+  run_labels (init [1; 1] 10%N 10%N) [Enq 0; Enq 1; RdHave 0 false; RdHave 1 false; InlFl 0; InlFl 0; InlFl 0; InlFl 1] = None
+  /\ exists s, run_labels (init [1; 1] 10%N 10%N)
+                 [Enq 0; Enq 1; RdHave 0 false; RdHave 1 false; InlFl 0; InlFl 0; InlFl 0; InlFl 0; InlFl 0; InlFl 1] = Some s
+               /\ flushed s 0 = true /\ flushed s 1 = true.
+Proof. split; [vm_compute; reflexivity|]. eexists. split; [vm_compute; reflexivity|]. vm_compute. auto. Qed.
 
 (** Non-vacuity: a steady schedule in which two writers (2 and 1 commands) both return, the second one's
     token being answered by a flush that started while it waited. *)
